@@ -138,4 +138,83 @@ theorem statement_order_tied :
     Gen.ConnSkel.handleEventWithGuard = ConnSkel.Decl.handleEventWithGuard :=
   ConnSkel.skeletons_agree
 
+/-- T1, the public entry points: `startRead()` / `stopRead()` hand their request to the loop unconditionally, the
+`send` overloads test the state and then the thread (`Proofs/ConnSkelTie.lean`) -/
+theorem entry_points_tied :
+    Gen.ConnSkel.startRead = ConnSkel.Decl.startRead ∧
+    Gen.ConnSkel.stopRead = ConnSkel.Decl.stopRead ∧
+    Gen.ConnSkel.sendPiece = ConnSkel.Decl.sendPiece ∧
+    Gen.ConnSkel.sendBuf = ConnSkel.Decl.sendBuf ∧
+    Gen.ConnSkel.sendPtr = ConnSkel.Decl.sendPtr ∧
+    Gen.ConnSkel.sendInLoopPiece = ConnSkel.Decl.sendInLoopPiece ∧
+    Gen.ConnSkel.setTcpNoDelay = ConnSkel.Decl.setTcpNoDelay :=
+  ConnSkel.entry_points_agree
+
+/-- **pause/resume requests are never dropped in the calling thread**: from another thread `stopRead()` /
+`startRead()` ALWAYS queue their functor, whatever `reading` shows at that moment (it does not yet reflect requests
+that are still queued); on the loop thread they run at once -/
+theorem read_requests_unconditional (c : Conn) :
+    (act c true .stopRead).pending = c.pending ++ [Task.stopReadInLoop] ∧
+    (act c true .startRead).pending = c.pending ++ [Task.startReadInLoop] ∧
+    act c false .stopRead = stopReadInLoop c ∧ act c false .startRead = startReadInLoop c := by
+  refine ⟨?_, ?_, ?_, ?_⟩ <;> simp [act, handOff, enqueue, stopReadDispatch, startReadDispatch]
+
+/-- **the last request wins**: on a connection that is up, a pause followed by a resume (processed in that order by
+the loop: the functor queue is FIFO, `C04`) ends with read interest ON, and the reverse ends with it OFF - whatever
+the state was before; together with `read_requests_unconditional`: `stopRead(); startRead();` issued back to back
+from another thread resumes reading -/
+theorem last_read_request_wins (c : Conn) (hu : c.st = .kConnected ∨ c.st = .kDisconnecting) :
+    (startReadInLoop (stopReadInLoop c)).ch.evRead = true ∧ (startReadInLoop (stopReadInLoop c)).reading = true ∧
+    (stopReadInLoop (startReadInLoop c)).ch.evRead = false ∧ (stopReadInLoop (startReadInLoop c)).reading = false := by
+  have hs : ∀ c1 : Conn, (stopReadInLoop c1).st = c1.st := by
+    intro c1; unfold stopReadInLoop; split <;> rfl
+  have ht : ∀ c1 : Conn, (startReadInLoop c1).st = c1.st := by
+    intro c1; unfold startReadInLoop; split <;> rfl
+  have hstart : ∀ c1 : Conn, (c1.st = .kConnected ∨ c1.st = .kDisconnecting) →
+      (startReadInLoop c1).ch.evRead = true ∧ (startReadInLoop c1).reading = true := by
+    intro c1 h1
+    unfold startReadInLoop
+    by_cases hg : startReadActs c1.st c1.reading c1.ch.evRead
+    · rw [if_pos hg]
+      exact ⟨by show (chanUpdate c1.be { c1.ch with evRead := true, evWrite := c1.ch.evWrite }).evRead = true
+                rw [Conn.chanUpdate_keeps_evRead], rfl⟩
+    · rw [if_neg hg]
+      have : ¬ (¬ c1.reading = true ∨ ¬ c1.ch.evRead = true) := fun h => hg ⟨h1, h⟩
+      constructor
+      · cases h : c1.ch.evRead with
+        | true => rfl
+        | false => exact absurd (Or.inr (by simp [h])) this
+      · cases h : c1.reading with
+        | true => rfl
+        | false => exact absurd (Or.inl (by simp [h])) this
+  have hstop : ∀ c1 : Conn, (c1.st = .kConnected ∨ c1.st = .kDisconnecting) →
+      (stopReadInLoop c1).ch.evRead = false ∧ (stopReadInLoop c1).reading = false := by
+    intro c1 h1
+    unfold stopReadInLoop
+    by_cases hg : stopReadActs c1.st c1.reading c1.ch.evRead
+    · rw [if_pos hg]
+      exact ⟨by show (chanUpdate c1.be { c1.ch with evRead := false, evWrite := c1.ch.evWrite }).evRead = false
+                rw [Conn.chanUpdate_keeps_evRead], rfl⟩
+    · rw [if_neg hg]
+      have : ¬ (c1.reading = true ∨ c1.ch.evRead = true) := fun h => hg ⟨h1, h⟩
+      constructor
+      · cases h : c1.ch.evRead with
+        | false => rfl
+        | true => exact absurd (Or.inr h) this
+      · cases h : c1.reading with
+        | false => rfl
+        | true => exact absurd (Or.inl h) this
+  have h1 := hstart (stopReadInLoop c) (by rw [hs]; exact hu)
+  have h2 := hstop (startReadInLoop c) (by rw [ht]; exact hu)
+  exact ⟨h1.1, h1.2, h2.1, h2.2⟩
+
+/-- the whole history: another thread pauses and resumes back to back before the loop has seen either request, the
+peer then writes: both functors run in the next iteration (pause, then resume), the bytes are delivered -/
+example :
+    let c := run (step {} .establish) [.act true .stopRead, .act true .startRead, .iter [], .peerWrite [1, 2, 3],
+      .envRead (.got 3), .iter [.conn 1]]
+    c.ch.evRead = true ∧ c.reading = true ∧ c.delivered = [1, 2, 3] ∧
+    (run (step {} .establish) [.act true .stopRead, .act true .startRead]).pending = [.stopReadInLoop, .startReadInLoop] := by
+  decide
+
 end MuduoVerif.C01
